@@ -148,7 +148,7 @@ void AttributesTools::resolveVariables(
     size_t nbSubstitutions = 0;
     while (index1 != string::npos)
     {
-      if (++nbSubstitutions > 10000)
+      if (++nbSubstitutions > 1000)
         throw Exception("AttributesTools::resolveVariables(). Too many substitutions in the value of '" + it->first + "': the variable definitions are probably cyclic.");
       string::size_type index2 = value.find(TextTools::toString(varEnd), index1);
       if (index2 != string::npos)
